@@ -370,6 +370,7 @@ class Parser:
         "_chunk_index",
         "_tokens_size",
         "_node_count",
+        "_connect_by_depth",
     )
 
     FUNCTIONS: t.ClassVar[dict[str, t.Callable]] = {
@@ -1987,6 +1988,7 @@ class Parser:
         self._chunks = []
         self._chunk_index = 0
         self._node_count = 0
+        self._connect_by_depth = 0
 
     def _advance(self, times: i64 = 1) -> None:
         index = self._index + times
@@ -5626,14 +5628,22 @@ class Parser:
             return None
         return self.expression(exp.Qualify(this=self._parse_disjunction()))
 
+    def _parse_prior(self) -> exp.Expr:
+        return self.expression(exp.Prior(this=self._parse_bitwise()))
+
+    def _no_paren_function_parser(self, name: str) -> t.Callable | None:
+        # PRIOR is only an operator inside a CONNECT BY condition. This is tracked per parser
+        # instance: NO_PAREN_FUNCTION_PARSERS is shared by all parsers (and dialects) of the process
+        if self._connect_by_depth and name == "PRIOR":
+            return self.__class__._parse_prior
+        return self.NO_PAREN_FUNCTION_PARSERS.get(name)
+
     def _parse_connect_with_prior(self) -> exp.Expr | None:
-        self.NO_PAREN_FUNCTION_PARSERS["PRIOR"] = lambda self: self.expression(
-            exp.Prior(this=self._parse_bitwise())
-        )
+        self._connect_by_depth += 1
         try:
             connect = self._parse_disjunction()
         finally:
-            self.NO_PAREN_FUNCTION_PARSERS.pop("PRIOR", None)
+            self._connect_by_depth -= 1
         return connect
 
     def _parse_connect(self, skip_start_token: bool = False) -> exp.Connect | None:
@@ -6861,7 +6871,7 @@ class Parser:
             token = self._prev
             comments = self._prev_comments
 
-            if parts is None and token.text.upper() in self.NO_PAREN_FUNCTION_PARSERS:
+            if parts is None and self._no_paren_function_parser(token.text.upper()):
                 self._retreat(index)
                 return None
 
@@ -7237,7 +7247,7 @@ class Parser:
         upper = self._curr.text.upper()
 
         after_dot = prev.token_type == TokenType.DOT
-        parser = self.NO_PAREN_FUNCTION_PARSERS.get(upper)
+        parser = self._no_paren_function_parser(upper)
         if (
             optional_parens
             and parser
